@@ -7,6 +7,8 @@ Route for `B_le`: `B x y = P2 x (π y) + s(s-1)/2 - a(a-1)/2` (`gourdon_B_sigma0
 and `8 * (s(s-1)/2) ≤ x` (from `2 s ≤ √x + 1`), hence `8 * B ≤ 7 * x`.
 -/
 import PcProofs.Spec.Gourdon
+import Mathlib.Data.List.Permutation
+import Mathlib.Data.Nat.Factors
 
 namespace Pc.Safety
 
@@ -201,6 +203,112 @@ theorem tri_pi_sqrt_le (x : ℕ) :
   have h0 := tri_nonneg (π (Nat.sqrt x))
   omega
 
+/-! ### ordered triples of primes with product `≤ x` (stretch b, c) -/
+
+/-- a finset that injects into the permutations of a list `L` has at most `L.length !` elements -/
+lemma card_le_factorial_of_perm {α : Type*} (F : Finset α) (g : α → List ℕ) (L : List ℕ)
+    (hinj : Set.InjOn g (F : Set α)) (hperm : ∀ t ∈ F, (g t).Perm L) :
+    F.card ≤ L.length.factorial := by
+  calc F.card ≤ (L.permutations.toFinset).card := by
+        apply Finset.card_le_card_of_injOn g _ hinj
+        intro t ht
+        rw [Finset.mem_coe, List.mem_toFinset, List.mem_permutations]
+        exact hperm t ht
+    _ ≤ L.permutations.length := List.toFinset_card_le _
+    _ = L.length.factorial := List.length_permutations L
+
+/-- the ordered triples of primes with a given product `n`: at most `3! = 6` -/
+lemma card_prime_triples_fiber_le (T : Finset (ℕ × ℕ × ℕ))
+    (hT : ∀ t ∈ T, t.1.Prime ∧ t.2.1.Prime ∧ t.2.2.Prime) (n : ℕ) :
+    (T.filter (fun t => t.1 * t.2.1 * t.2.2 = n)).card ≤ 6 := by
+  rcases (T.filter (fun t => t.1 * t.2.1 * t.2.2 = n)).eq_empty_or_nonempty with h | ⟨t0, ht0⟩
+  · rw [h]; simp
+  have hperm : ∀ t ∈ T.filter (fun t => t.1 * t.2.1 * t.2.2 = n),
+      ([t.1, t.2.1, t.2.2] : List ℕ).Perm n.primeFactorsList := by
+    intro t ht
+    rw [mem_filter] at ht
+    obtain ⟨h1, h2, h3⟩ := hT t ht.1
+    apply Nat.primeFactorsList_unique
+    · rw [← ht.2]; simp [mul_assoc]
+    · intro q hq
+      simp only [List.mem_cons, List.not_mem_nil, or_false] at hq
+      rcases hq with rfl | rfl | rfl <;> assumption
+  have hlen : n.primeFactorsList.length = 3 := by
+    have := (hperm t0 ht0).length_eq
+    simpa using this.symm
+  have := card_le_factorial_of_perm (T.filter (fun t => t.1 * t.2.1 * t.2.2 = n))
+    (fun t => [t.1, t.2.1, t.2.2]) n.primeFactorsList ?_ hperm
+  · rw [hlen] at this
+    exact this
+  · rintro ⟨a, b, c⟩ _ ⟨a', b', c'⟩ _ h
+    simp only [List.cons.injEq, and_true] at h
+    obtain ⟨rfl, rfl, rfl⟩ := h
+    rfl
+
+/-- **at most `6 x` ordered triples of primes have product `≤ x`** -/
+theorem card_prime_triples_le (x : ℕ) (T : Finset (ℕ × ℕ × ℕ))
+    (hT : ∀ t ∈ T, t.1.Prime ∧ t.2.1.Prime ∧ t.2.2.Prime ∧ t.1 * t.2.1 * t.2.2 ≤ x) :
+    T.card ≤ 6 * x := by
+  have h1 := Finset.card_le_mul_card_image (f := fun t : ℕ × ℕ × ℕ => t.1 * t.2.1 * t.2.2) T 6
+    (fun n _ => card_prime_triples_fiber_le T
+      (fun t ht => ⟨(hT t ht).1, (hT t ht).2.1, (hT t ht).2.2.1⟩) n)
+  have h2 : (T.image (fun t : ℕ × ℕ × ℕ => t.1 * t.2.1 * t.2.2)).card ≤ (Icc 1 x).card := by
+    apply Finset.card_le_card
+    intro n hn
+    rw [mem_image] at hn
+    obtain ⟨t, ht, rfl⟩ := hn
+    obtain ⟨h1, h2, h3, h4⟩ := hT t ht
+    rw [mem_Icc]
+    exact ⟨Nat.mul_pos (Nat.mul_pos h1.pos h2.pos) h3.pos, h4⟩
+  rw [Nat.card_Icc] at h2
+  omega
+
+/-- sum form: for every `q` in a set `Q` of primes let `R q` be a set of pairs of primes `(r, s)` with
+`q * r * s ≤ x`; then `Σ_{q ∈ Q} #(R q) ≤ 6 x` -/
+theorem sum_card_prime_pairs_le (x : ℕ) (Q : Finset ℕ) (R : ℕ → Finset (ℕ × ℕ))
+    (hQ : ∀ q ∈ Q, q.Prime)
+    (hR : ∀ q ∈ Q, ∀ rs ∈ R q, rs.1.Prime ∧ rs.2.Prime ∧ q * rs.1 * rs.2 ≤ x) :
+    ∑ q ∈ Q, (R q).card ≤ 6 * x := by
+  rw [← Finset.card_sigma, ← Finset.card_map (Equiv.sigmaEquivProd ℕ (ℕ × ℕ)).toEmbedding]
+  apply card_prime_triples_le
+  intro t ht
+  rw [Finset.mem_map] at ht
+  obtain ⟨⟨q, rs⟩, hs, rfl⟩ := ht
+  rw [Finset.mem_sigma] at hs
+  obtain ⟨h1, h2, h3⟩ := hR q hs.1 rs hs.2
+  exact ⟨hQ q hs.1, h1, h2, h3⟩
+
+/-- stretch b: `Σ_{q ∈ Q} π(√(x / q))² ≤ 6 x` for any finite set `Q` of primes -/
+theorem sum_pi_sqrt_sq_le (x : ℕ) (Q : Finset ℕ) (hQ : ∀ q ∈ Q, q.Prime) :
+    ∑ q ∈ Q, (π (Nat.sqrt (x / q))) ^ 2 ≤ 6 * x := by
+  have h := sum_card_prime_pairs_le x Q
+    (fun q => Nat.primesLE (Nat.sqrt (x / q)) ×ˢ Nat.primesLE (Nat.sqrt (x / q))) hQ ?_
+  · simpa [Finset.card_product, sq] using h
+  · intro q hq rs hrs
+    rw [Finset.mem_product, Nat.mem_primesLE, Nat.mem_primesLE] at hrs
+    obtain ⟨⟨h1, h1'⟩, h2, h2'⟩ := hrs
+    refine ⟨h1', h2', ?_⟩
+    have h3 : rs.1 * rs.2 ≤ x / q :=
+      le_trans (Nat.mul_le_mul h1 h2) (Nat.sqrt_le (x / q))
+    calc q * rs.1 * rs.2 = q * (rs.1 * rs.2) := mul_assoc _ _ _
+      _ ≤ q * (x / q) := Nat.mul_le_mul_left q h3
+      _ ≤ x := Nat.mul_div_le x q
+
+/-- stretch c: `Σ_{q ∈ Q} π(y) π(x / (q y)) ≤ 6 x` for any finite set `Q` of primes (no hypothesis on
+`x`, `y` is needed) -/
+theorem sum_pi_mul_pi_le (x y : ℕ) (Q : Finset ℕ) (hQ : ∀ q ∈ Q, q.Prime) :
+    ∑ q ∈ Q, π y * π (x / (q * y)) ≤ 6 * x := by
+  have h := sum_card_prime_pairs_le x Q
+    (fun q => Nat.primesLE y ×ˢ Nat.primesLE (x / (q * y))) hQ ?_
+  · simpa [Finset.card_product] using h
+  · intro q hq rs hrs
+    rw [Finset.mem_product, Nat.mem_primesLE, Nat.mem_primesLE] at hrs
+    obtain ⟨⟨h1, h1'⟩, h2, h2'⟩ := hrs
+    refine ⟨h1', h2', ?_⟩
+    calc q * rs.1 * rs.2 ≤ q * y * (x / (q * y)) :=
+          Nat.mul_le_mul (Nat.mul_le_mul_left q h1) h2
+      _ ≤ x := Nat.mul_div_le x (q * y)
+
 end Pc.Safety
 
 #print axioms Pc.Safety.pi_le_half
@@ -211,3 +319,6 @@ end Pc.Safety
 #print axioms Pc.Safety.P2_lt_two63
 #print axioms Pc.Safety.B_sub_le
 #print axioms Pc.Safety.tri_pi_sqrt_le
+#print axioms Pc.Safety.card_prime_triples_le
+#print axioms Pc.Safety.sum_pi_sqrt_sq_le
+#print axioms Pc.Safety.sum_pi_mul_pi_le
